@@ -413,6 +413,21 @@ pub fn der_value(v: &Val, ty: &str) -> Option<Vec<u8>> {
             c.extend(apply_tag(&der_value(&ms[2], "Cho2")?, 2, 2, true));
             tlv(0, true, 16, &c)
         }
+        (Val::Seq(ms), "SqD") if ms.len() == 4 => {
+            // DER: a component equal to its DEFAULT is absent
+            let mut c = vec![];
+            if ms[0] != Val::Int("5".into()) {
+                c.extend(apply_tag(&der_value(&ms[0], "INTEGER")?, 2, 0, false));
+            }
+            if ms[1] != Val::Bool(true) {
+                c.extend(apply_tag(&der_value(&ms[1], "BOOLEAN")?, 2, 1, false));
+            }
+            if ms[2] != Val::Int("7".into()) {
+                c.extend(apply_tag(&der_value(&ms[2], "INTEGER")?, 2, 2, false));
+            }
+            c.extend(apply_tag(&der_value(&ms[3], "BOOLEAN")?, 2, 3, false));
+            tlv(0, true, 16, &c)
+        }
         (Val::List(es), t) => {
             let et = match t {
                 "Lst" => "INTEGER",
@@ -740,6 +755,14 @@ impl Prop for C07 {
         add("choice", "Cho", cp, "c:m:7".into(), Val::Choice("c".into(), Box::new(Val::Choice("m".into(), Box::new(Val::Int("7".into()))))), "depth=2-int".into());
         add("sequence", "Sq", cp, "{ p 1, q TRUE, r z:NULL }".into(), Val::Seq(vec![Val::Int("1".into()), Val::Bool(true), Val::Choice("z".into(), Box::new(Val::Null))]), "3-members".into());
         add("sequence", "Sq", cp, "{ p -3, q FALSE, r m:2 }".into(), Val::Seq(vec![Val::Int("-3".into()), Val::Bool(false), Val::Choice("m".into(), Box::new(Val::Int("2".into())))]), "3-members-b".into());
+        // SEQUENCE values over components with DEFAULTs: given explicitly (equal to and different from the default) and omitted
+        let dp = "SqD ::= SEQUENCE { a INTEGER DEFAULT 5, b BOOLEAN DEFAULT TRUE, c INTEGER (0..255) DEFAULT 7, d BOOLEAN }";
+        let sqd = |a: i64, b: bool, c: i64, d: bool| Val::Seq(vec![Val::Int(a.to_string()), Val::Bool(b), Val::Int(c.to_string()), Val::Bool(d)]);
+        add("sequence", "SqD", dp, "{ d TRUE }".into(), sqd(5, true, 7, true), "defaults-omitted".into());
+        add("sequence", "SqD", dp, "{ b FALSE, c 9, d TRUE }".into(), sqd(5, false, 9, true), "defaults-overridden".into());
+        add("sequence", "SqD", dp, "{ a 1, b FALSE, c 2, d FALSE }".into(), sqd(1, false, 2, false), "defaults-all-given".into());
+        add("sequence", "SqD", dp, "{ a 5, b TRUE, c 7, d FALSE }".into(), sqd(5, true, 7, false), "defaults-given-equal".into());
+        add("sequence", "SqD", dp, "{ c 0, d TRUE }".into(), sqd(5, true, 0, true), "defaults-mixed".into());
         add("sequence-of", "Lst", cp, "{ 1, 2, 3 }".into(), Val::List(vec![Val::Int("1".into()), Val::Int("2".into()), Val::Int("3".into())]), "n=3".into());
         add("sequence-of", "Lst", cp, "{ -1 }".into(), Val::List(vec![Val::Int("-1".into())]), "n=1".into());
         add("sequence-of", "Lst", cp, "{ }".into(), Val::List(vec![]), "n=0".into());
